@@ -116,6 +116,12 @@ var k *kernel
 
 func init() {
 	vsched.OnStart(func() {
+		if k != nil {
+			// real descriptors the previous execution obtained from Dup and never closed
+			for fd := range k.realDups {
+				_ = syscall.Close(fd)
+			}
+		}
 		k = &kernel{realDups: map[int]bool{}, dialPlan: map[string]*DialPlan{}, ShortWrites: true, Eintr: true}
 	})
 }
@@ -709,6 +715,13 @@ func Dup(fd int) (int, error) {
 			panic("vsys: real descriptor space collides with the simulated one")
 		}
 		k.realDups[nfd] = true
+		kk := k
+		vsched.OnCleanup(func() {
+			if kk.realDups[nfd] {
+				delete(kk.realDups, nfd)
+				_ = syscall.Close(nfd)
+			}
+		})
 	}
 	return nfd, err
 }
